@@ -52,6 +52,10 @@ CHECKS = {
    technique="symbolic execution (z3-backed bytes, z3 model of the struct module) of StructCore.unpack for definitions built by the real StructDefine parser; per path SMT proof that every field value is the reference byte composition at the C-ABI offset; C-layout calculator (validated against gcc) for size/alignment/offsets; symbolic LEB128 encode/decode kernels",
    text="Bounded model checking per definition: all input byte strings of the definition's size; every explored path proves each unpacked field (scalars, arrays, nested structures, bitfields, counted/bound/terminated/LEB128 fields) equal to the reference term; layouts are compared with an independent C ABI calculator; LEB128 read/write round trips are proven for all values < 2^35. pack() is exercised on two concrete witnesses of every unpack path (b''.join is C code).",
    note="trusted: z3, symx proxies, vf/symstruct.py (struct model, validated by concrete re-execution of path witnesses with the real struct module), the C layout calculator (checked against gcc in selfcheck); known findings: arrays of nested structures, misaligned nested structures in packed parents, pointer-sized members of nested structures at psize=32, byte-counted arrays of wider elements"),
+ "C20": dict(level="model_checking", engine="E2", design="DESIGN.md section 4 C20",
+   technique="symbolic execution (z3-backed bytes in a SymFile, z3 model of struct) of read_program and the ELF/PE/Mach-O/COFF/HEX/SREC constructors on fully symbolic file contents; per path: outcome class, SMT proof that the claiming format's magic is implied by the path condition, step budget",
+   text="Bounded model checking of program identification: for each input class (all contents of a given length, unfocused or with one format's magic assumed, at truncation lengths around every header/table boundary) every explored path must return one of the seven format objects whose magic is implied by the path condition; a path ending in any escaping exception or exceeding the step budget is reported with a concrete witness, which is replayed through read_program(bytes) under a CPU-time limit.",
+   note="trusted: z3, symx (SymFile, symbolic ASCII/hex parsing, struct model), the per-format magic predicates; path/time caps make most explorations incomplete (counted): the claim covers the explored paths only"),
 }
 
 NA_REASON = "check not built yet (construction in progress)"
